@@ -69,7 +69,8 @@ Record Rel (q : list queued) (l : layout) (s : kmst) : Prop := {
   r_pause : os_pause_ticks (oneshot l) = 0;
   r_seqs : active_sequences l = [];
   r_aq : action_queue l = [];
-  r_ch2 : chords2 l = None }.
+  r_ch2 : chords2 l = None;
+  r_lpt : lpt_timeout l = 0 }.
 
 (* spec states whose layers exist *)
 Definition h_ok (nl : N) (h : hentry) : bool := match h with HLayer ly _ => ly <? nl | _ => true end.
@@ -84,8 +85,8 @@ Lemma Rel_set_rpt l s v : Rel qq l s -> Rel qq (set_rpt_action v l) s.
 Proof. intros []; constructor; assumption. Qed.
 Lemma Rel_set_lpt_coord l s v : Rel qq l s -> Rel qq (set_lpt_coord v l) s.
 Proof. intros []; constructor; assumption. Qed.
-Lemma Rel_set_lpt_timeout l s v : Rel qq l s -> Rel qq (set_lpt_timeout v l) s.
-Proof. intros []; constructor; assumption. Qed.
+Lemma Rel_set_lpt_timeout l s : Rel qq l s -> Rel qq (set_lpt_timeout 0 l) s.
+Proof. intros []; constructor; try assumption; reflexivity. Qed.
 Lemma Rel_set_hist_keys l s v : Rel qq l s -> Rel qq (set_hist_keys v l) s.
 Proof. intros []; constructor; assumption. Qed.
 Lemma Rel_set_hist_inputs l s v : Rel qq l s -> Rel qq (set_hist_inputs v l) s.
@@ -691,7 +692,8 @@ Proof.
   set (l1 := set_queue (aged_q (queue l)) l).
   set (l2 := set_lpt_timeout (sat_sub (lpt_timeout l1) 1) l1).
   assert (HR2 : Rel (aged_q qq) l2 s).
-  { unfold l2. apply Rel_set_lpt_timeout. unfold l1. rewrite (r_queue _ _ _ HR). exact (Rel_requeue _ _ _ _ HR). }
+  { unfold l2. change (lpt_timeout l1) with (lpt_timeout l). rewrite (r_lpt _ _ _ HR). change (sat_sub 0 1) with 0.
+    apply Rel_set_lpt_timeout. unfold l1. rewrite (r_queue _ _ _ HR). exact (Rel_requeue _ _ _ _ HR). }
   rewrite (r_tde _ _ _ HR2).
   rewrite (process_sequences_quiet l2 (r_seqs _ _ _ HR2) (Rel_plain _ _ _ HR2)).
   fold (aged l2).
@@ -925,3 +927,8 @@ Example refinement_not_vacuous :
     [[]; []; []; [31]; [31]; [31]; [31]; [31; 29; 46]; [31; 29; 46]; [31; 29; 46]; [29; 46]; [];
      []; []; []; []; [5; 29; 46]; [5; 4]].
 Proof. vm_compute. repeat split; reflexivity. Qed.
+
+(* corollary: no Panic and no OutOfFuel outcome on the fragment *)
+Lemma fragment_never_panics cfg pause is :
+  frag_cfg cfg = true -> hist_ok cfg 0 is = true -> exists outs, l_run cfg (init_layout pause) is = Ok outs.
+Proof. intros H1 H2. exists (km_run cfg km_init is). exact (fresh_run_refines cfg pause is H1 H2). Qed.
